@@ -62,7 +62,7 @@ def run(ctx):
     if not binp:
         return
     quick = ctx.tier == "quick"
-    ntrace = 450 if quick else 6000
+    ntrace = 380 if quick else 6000
     rc, rows, err = ctx.jsonl([binp, "trace", "-seed", str(ctx.seed), "-n", str(ntrace)])
     rc2, wrows, err2 = ctx.jsonl([binp, "witness"])
     if rc != 0 or rc2 != 0 or not rows or not wrows:
@@ -75,7 +75,9 @@ def run(ctx):
                 "openBquotes 0..3; script of rune calls with peek/peekTwo/zshNumRange probes mixed in. Parse search: a third of the "
                 "2.6k corpus literals of syntax/*_test.go (all in thorough) x 5 variants + a seed-rotated slice of the fixed mutation "
                 "enumeration (insert one of 27 reader-relevant pieces at every position) + random multi-mutations; schedules: all ones, "
-                "data+EOF, split points (all for <=24 bytes, all for every input in thorough), random chunkings with empty reads. "
+                "data+EOF, split points (all for <=24 bytes, all for every input in thorough), random chunkings with empty reads; plus, every run, "
+                "27 lookahead-sensitive constructs (zsh doubled flags, <n-m>, backslash-CR-LF, $' $\", ((, multi-byte runes, backquote escapes...) "
+                "placed at every alignment across the read-buffer boundary 1024*k, k=1,2, under whole, half-buffer, one-byte and boundary+-1 reads. "
                 "non-trivial = distinct (input,schedule,script) with a non-empty schedule")
     for r in rows:
         key = (r["in"], tuple(r["sched"]), r["eager"], r["obq"], r["script"])
